@@ -32,7 +32,7 @@ from .c16_gen import (PYWS, gen_range_header, gen_len, gen_request, gen_elements
 
 PROPERTY = 'C16'
 LEAN_TARGETS = ['CpProofs.C16', 'CpProofs.C16Cond', 'CpProofs.C16Elems', 'CpProofs.C16Multipart', 'CpProofs.C16Flow',
-                'CpProofs.C16ElemsFull', 'CpProofs.C16Date', 'drv_c16']
+                'CpProofs.C16ElemsFull', 'CpProofs.C16Date', 'CpProofs.C16MultipartScan', 'drv_c16']
 DRIVER = 'drv_c16'
 THEOREMS = ['CpProofs.C16.' + t for t in (
     # ranges: parsing
@@ -51,7 +51,8 @@ THEOREMS = ['CpProofs.C16.' + t for t in (
     # the request flow: response.stream, handlers that validate themselves (scripts), the tool as a step
     'respondX_legacy', 'flow_gen_run', 'runScript_pass_iff', 'flow_gen_iff_dictated', 'flow_gen_not_dictated_full',
     'flow_gen_200_body', 'flow_304_no_body', 'flow_buffered_304_no_body', 'not_flow_304_no_body_full',
-    'flow_412_no_entity', 'flow_304_getHead', 'flow_non2xx_untouched', 'flow_file_stream',
+    'flow_412_no_entity', 'flow_304_getHead', 'flow_non2xx_untouched', 'flow_file_stream', 'respondX_ignores_ifRange',
+    'since_on_304', 'since_on_412', 'flow_handler_304_412', 'flow_raise_discards_entity',
     # HeaderMap.elements in full: parameters, unquoting, stable sort + reversal, str()
     'sortStable_perm', 'elementsFull_perm', 'elementsFull_mem', 'ltText_trans', 'sortStable_sorted',
     'elementsFull_descending', 'validateEtags_perm', 'sorting_irrelevant', 'parseElement_plain', 'parsed_plain',
@@ -59,6 +60,9 @@ THEOREMS = ['CpProofs.C16.' + t for t in (
     # HTTP dates: the Last-Modified text determines the timestamp; If-(Un)Modified-Since over dates
     'g_mono', 'years_ok', 'doys_ok', 'civilOfDoe_inv', 'civil_injective', 'civil_ranges', 'renderFields_inj',
     'httpDate_injective', 'ims_dates', 'ius_dates',
+    # multipart framing round trip with a delimiter-scanning receiver, arbitrary boundary text
+    'splitAt1_clean', 'multipart_scan_decodes', 'scan_payload_truthful', 'clean_of_no_cr',
+    'scan_confused_by_delimiter_in_payload',
     # list-valued validators
     'elements_tag_list', 'listed_etag_matches', 'space_codes_not_quote',
     # obligations over the regenerated tables
@@ -385,7 +389,7 @@ def shrink_request(case, sig):
     while progress:
         progress = False
         cands = []
-        for k in ('range', 'im', 'inm', 'ims', 'ius'):
+        for k in ('range', 'im', 'inm', 'ims', 'ius', 'ifr'):
             if cur.get(k) is not None:
                 c = dict(cur)
                 del c[k]
@@ -780,7 +784,7 @@ def delivered(v):
 
 def norm_case(case):
     c = dict(case)
-    for k in ('range', 'im', 'inm', 'ims', 'ius'):
+    for k in ('range', 'im', 'inm', 'ims', 'ius', 'ifr'):
         if c.get(k) is not None:
             c[k] = delivered(c[k])
     return c
@@ -823,7 +827,7 @@ def run_request(case):
     if case['method'] not in ('GET', 'HEAD'):
         environ['CONTENT_LENGTH'] = '0'
     for name, key in (('HTTP_RANGE', 'range'), ('HTTP_IF_MATCH', 'im'), ('HTTP_IF_NONE_MATCH', 'inm'),
-                      ('HTTP_IF_MODIFIED_SINCE', 'ims'), ('HTTP_IF_UNMODIFIED_SINCE', 'ius')):
+                      ('HTTP_IF_MODIFIED_SINCE', 'ims'), ('HTTP_IF_UNMODIFIED_SINCE', 'ius'), ('HTTP_IF_RANGE', 'ifr')):
         if case.get(key) is not None:
             environ[name] = wire_header(case[key])
     out = {}
@@ -970,7 +974,7 @@ def model_line(case, obs=None):
         enc_opt(case['hetag']), enc_text(auto), enc_opt(lm), enc_opt(case.get('im')), enc_opt(case.get('inm')),
         enc_opt(case.get('ims')), enc_opt(case.get('ius')), enc_opt(case.get('range')), cont,
         enc_opt(multipart_boundary(obs)), enc_text('text/plain' if kind in ('tool', 'index') else 'application/x-test'),
-        '1' if case.get('stream') else '0', script or '-', enc_text(EMPTY_TAG)])
+        '1' if case.get('stream') else '0', script or '-', enc_text(EMPTY_TAG), enc_opt(case.get('ifr'))])
 
 
 EMPTY_TAG = '"%s"' % hashlib.md5(b'').hexdigest()
@@ -1240,9 +1244,24 @@ def _union(slices):
 def check_requests(ctx, cases, compare=True):
     observed = [run_request(c) for c in cases]
     model = ctx.model([model_line(c, o) for c, o in zip(cases, observed)]) if compare else None
+    # the Lean reference receiver (proved to invert the framing) on the real multipart bodies
+    mp = [i for i, (c, o) in enumerate(zip(cases, observed))
+          if compare and not o.get('exc') and multipart_boundary(o) and c['method'] != 'HEAD' and len(o['body']) <= 20000]
+    mp_out = ctx.model(['M %s %s %s' % (enc_text(multipart_boundary(observed[i])),
+                                        enc_text('text/plain' if cases[i]['kind'] in ('tool', 'index') else 'application/x-test'),
+                                        observed[i]['body'].hex() or '-') for i in mp]) if mp else None
+    if mp_out is not None:
+        for i, line in zip(mp, mp_out):
+            ctx.compared()
+            ctx.count('Q:multipart_decoded_by_model_receiver')
+            parts = parse_multipart(observed[i])
+            want = 'undecodable' if parts is None else 'p:' + ';'.join(
+                '%d-%d/%d:%d:%d' % (a, b, t, len(pl), zlib.adler32(pl)) for a, b, t, pl in parts)
+            if line != want:
+                ctx.disagree(cases[i], want, line, 'multipart body as decoded by the scanning receiver')
     for idx, case in enumerate(cases):
         obs = observed[idx]
-        conds = [k for k in ('range', 'im', 'inm', 'ims', 'ius') if case.get(k) is not None]
+        conds = [k for k in ('range', 'im', 'inm', 'ims', 'ius', 'ifr') if case.get(k) is not None]
         ctx.case(case, nontrivial=bool(conds), key='Q|' + json.dumps(case, sort_keys=True))
         ctx.count('Q:status:%d' % obs['status'])
         ctx.count('Q:kind:%s' % case['kind'])
